@@ -1,157 +1,18 @@
-/* contracts/lru_cache.h -- representation invariant and abstract view of lru_cache (route B: bounded
- * executable predicates over the extracted struct).  Hand-written specification; included after
- * gen/lru_cache.h.  Everything here is derived from the code and its call sites (wf) or from the
- * property statements (view-level postconditions in lru_cache.spec). */
+/* lru_cache_spec.h -- representation invariant and abstract view of lru_cache (route B: bounded
+ * executable predicates over the extracted struct).  Hand-written specification. wf is derived from
+ * the code and its call sites; the view-level postconditions in lru_cache.spec from the properties. */
 #ifndef LRU_CACHE_SPEC_H
 #define LRU_CACHE_SPEC_H
 #include "lru_cache.h"
 #include "spec_common.h"
-
-/* ---- representation invariant ---------------------------------------------------------------- */
-static inline bool lru_wf(const lru_cache *c)
-{
-    const lru_cache__L0_pool *LP = &c->P_L0;
-    const lru_cache__H_pool  *HP = &c->P_H;
-    uint64_t cap = c->m_elements.size, used = c->m_used_size;
-    if (!(cap >= 1 && cap <= MAXCAP && used <= cap)) return false;
-    /* the recency list: one ring of exactly cap nodes; no other live list node in the pool */
-    if (!(c->m_lru_list.size == cap && lru_cache__L0_wf(LP, &c->m_lru_list))) return false;
-    if (lru_cache__L0_pool_alive(LP) != cap + 1) return false;
-    /* index: size, reserve, live entries */
-    if (!(c->m_keyed_elements.size == used && c->m_keyed_elements.reserved >= cap)) return false;
-    if (lru_cache__H_pool_alive(HP) != used) return false;
-    /* walk the list: slot numbers are a permutation; first `used` nodes are the used ones */
-    bool      seen[MAXCAP] = {0};
-    cstl_iter it = LP->next[c->m_lru_list.head];
-    for (uint64_t i = 0; i < MAXCAP; i++)
-    {
-        if (i < cap)
-        {
-            uint64_t s = LP->val[it];
-            if (!(s < cap) || seen[s]) return false;
-            seen[s] = true;
-            if (i == used && c->m_lru_end != it) return false;
-            if (i < used)
-            {
-                const lru_cache__element *e = &c->m_elements.data[s];
-                cstl_iter kp = e->m_keyed_position;
-                if (e->m_lru_position != it) return false;
-                if (!(kp < lru_cache__H_NP && HP->alive[kp] && HP->kv[kp].second == s)) return false;
-            }
-            it = LP->next[it];
-        }
-    }
-    if (used == cap && c->m_lru_end != c->m_lru_list.head) return false;
-    /* live index keys pairwise distinct */
-    for (cstl_iter a = 0; a < lru_cache__H_NP; a++)
-        for (cstl_iter b = a + 1; b < lru_cache__H_NP; b++)
-            if (HP->alive[a] && HP->alive[b] && HP->kv[a].first == HP->kv[b].first) return false;
-    return true;
-}
-
-/* ---- abstract view --------------------------------------------------------------------------- */
-static inline bool lru_has(const lru_cache *c, uint64_t k) { return lru_cache__H_find(&c->P_H, &c->m_keyed_elements, k) != lru_cache__H_END; }
-static inline uint64_t lru_slot(const lru_cache *c, uint64_t k)
-{
-    cstl_iter n = lru_cache__H_find(&c->P_H, &c->m_keyed_elements, k);
-    return n == lru_cache__H_END ? MAXCAP : c->P_H.kv[n].second;
-}
-static inline uint64_t lru_val(const lru_cache *c, uint64_t k)
-{
-    uint64_t s = lru_slot(c, k);
-    return s < MAXCAP ? c->m_elements.data[s].m_value : 0;
-}
-/* recency rank: 0 = most recently used; NONE if absent */
-static inline uint64_t lru_ord(const lru_cache *c, uint64_t k)
-{
-    uint64_t s = lru_slot(c, k);
-    return s < MAXCAP ? lru_cache__L0_rank(&c->P_L0, &c->m_lru_list, c->m_elements.data[s].m_lru_position) : SPEC_NONE;
-}
-static inline uint64_t lru_size(const lru_cache *c) { return c->m_used_size; }
-static inline uint64_t lru_cap(const lru_cache *c) { return c->m_elements.size; }
-static inline bool lru_held(const lru_cache *c) { return c->m_lock.m_lock.held; }
-static inline uint64_t lru_acq(const lru_cache *c) { return c->m_lock.m_lock.acq; }
-/* slot idx currently holds an entry (is referenced by one of the first `used` list nodes) */
-static inline bool lru_slot_used(const lru_cache *c, uint64_t idx)
-{
-    if (!(idx < c->m_elements.size)) return false;
-    return lru_cache__L0_rank(&c->P_L0, &c->m_lru_list, c->m_elements.data[idx].m_lru_position) < c->m_used_size
-           && c->P_L0.val[c->m_elements.data[idx].m_lru_position < lru_cache__L0_NP ? c->m_elements.data[idx].m_lru_position : 0] == idx;
-}
-static inline uint64_t lru_key_of_slot(const lru_cache *c, uint64_t idx)
-{
-    cstl_iter kp = c->m_elements.data[idx < MAXCAP ? idx : 0].m_keyed_position;
-    return c->P_H.kv[kp < lru_cache__H_NP ? kp : 0].first;
-}
-/* key at recency rank r (undefined if r >= size) */
-static inline uint64_t lru_key_at(const lru_cache *c, uint64_t r)
-{
-    cstl_iter it = lru_cache__L0_at_rank(&c->P_L0, &c->m_lru_list, r);
-    uint64_t  s  = c->P_L0.val[it < lru_cache__L0_NP ? it : 0];
-    return lru_key_of_slot(c, s);
-}
-static inline bool lru_entry_live(const lru_cache *c, cstl_iter kp) { return kp < lru_cache__H_NP && c->P_H.alive[kp]; }
-static inline uint64_t lru_entry_key(const lru_cache *c, cstl_iter kp) { return c->P_H.kv[kp < lru_cache__H_NP ? kp : 0].first; }
-
-/* ---- postcondition vocabulary (o = state before the call, by value; n = state after) --------- */
-/* configuration and lock state are outside the effect of every private helper */
-static inline bool lru_frame(lru_cache o, const lru_cache *n)
-{
-    return o.m_elements.size == n->m_elements.size && n->m_keyed_elements.reserved >= n->m_elements.size
-           && o.m_lock.m_lock.held == n->m_lock.m_lock.held && o.m_lock.m_lock.acq == n->m_lock.m_lock.acq;
-}
-/* a public method: one critical section, configuration unchanged */
-static inline bool lru_frame_pub(lru_cache o, const lru_cache *n)
-{
-    return o.m_elements.size == n->m_elements.size && n->m_keyed_elements.reserved >= n->m_elements.size
-           && !n->m_lock.m_lock.held && n->m_lock.m_lock.acq - 1 == o.m_lock.m_lock.acq && n->m_lock.m_lock.acq != 0;
-}
-/* entry under key g untouched: presence and value */
-static inline bool lru_kept(lru_cache o, const lru_cache *n, uint64_t g)
-{
-    return lru_has(n, g) == lru_has(&o, g) && (!lru_has(&o, g) || lru_val(n, g) == lru_val(&o, g));
-}
-static inline bool lru_ord_same(lru_cache o, const lru_cache *n, uint64_t g) { return lru_ord(n, g) == lru_ord(&o, g); }
-/* recency order after a USE of resident key k: k first, entries that were ahead of k shift by one */
-static inline bool lru_ord_use(lru_cache o, const lru_cache *n, uint64_t k, uint64_t g)
-{
-    uint64_t og = lru_ord(&o, g), ok = lru_ord(&o, k);
-    return lru_ord(n, g) == (g == k ? 0 : og == SPEC_NONE ? SPEC_NONE : og + (og < ok ? 1 : 0));
-}
-/* recency order after REMOVAL of resident key k */
-static inline bool lru_ord_del(lru_cache o, const lru_cache *n, uint64_t k, uint64_t g)
-{
-    uint64_t og = lru_ord(&o, g), ok = lru_ord(&o, k);
-    return lru_ord(n, g) == (g == k || og == SPEC_NONE ? SPEC_NONE : og - (og > ok ? 1 : 0));
-}
-/* the eviction victim of an insert of a new key: the least recently used entry, iff the cache is full */
-static inline bool lru_full(const lru_cache *c) { return c->m_used_size >= c->m_elements.size; }
-static inline uint64_t lru_victim(const lru_cache *c) { return lru_key_at(c, c->m_used_size - 1); }
-/* state after INSERT of new key k with value v, observed at g */
-static inline bool lru_ins_has(lru_cache o, const lru_cache *n, uint64_t k, uint64_t g)
-{
-    bool evicted = lru_full(&o) && g == lru_victim(&o);
-    return lru_has(n, g) == (g == k ? true : evicted ? false : lru_has(&o, g));
-}
-static inline bool lru_ins_val(lru_cache o, const lru_cache *n, uint64_t k, uint64_t v, uint64_t g)
-{
-    return !lru_has(n, g) || lru_val(n, g) == (g == k ? v : lru_val(&o, g));
-}
-static inline bool lru_ins_ord(lru_cache o, const lru_cache *n, uint64_t k, uint64_t g)
-{
-    uint64_t og = lru_ord(&o, g);
-    bool     evicted = lru_full(&o) && g == lru_victim(&o);
-    return lru_ord(n, g) == (g == k ? 0 : (og == SPEC_NONE || evicted) ? SPEC_NONE : og + 1);
-}
-static inline bool lru_ins_size(lru_cache o, const lru_cache *n) { return lru_size(n) == (lru_full(&o) ? lru_cap(&o) : lru_size(&o) + 1); }
-/* the whole view unchanged at g */
-static inline bool lru_same(lru_cache o, const lru_cache *n, uint64_t g) { return lru_kept(o, n, g) && lru_ord_same(o, n, g); }
-static inline bool lru_size_same(lru_cache o, const lru_cache *n) { return lru_size(n) == lru_size(&o); }
-/* by-value accessors for the pre-state */
-static inline bool lru_has_o(lru_cache o, uint64_t k) { return lru_has(&o, k); }
-static inline uint64_t lru_val_o(lru_cache o, uint64_t k) { return lru_val(&o, k); }
-static inline uint64_t lru_size_o(lru_cache o) { return lru_size(&o); }
-static inline uint64_t lru_key_of_slot_o(lru_cache o, uint64_t idx) { return lru_key_of_slot(&o, idx); }
-static inline uint64_t lru_entry_key_o(lru_cache o, cstl_iter kp) { return lru_entry_key(&o, kp); }
-static inline uint64_t lru_victim_o(lru_cache o) { return lru_victim(&o); }
+#define RB lru
+#define RB_C lru_cache
+#define RBL lru_cache__L0
+#define RBH lru_cache__H
+#define RB_E lru_cache__element
+#define RB_LIST m_lru_list
+#define RB_END m_lru_end
+#define RB_POS m_lru_position
+#include "recency_base.h"
+static inline bool lru_wf(const lru_cache *c) { return lru_wf_base(c); }
 #endif
